@@ -158,6 +158,9 @@ pub fn payload_len(max_big: usize) -> impl Strategy<Value = usize> {
         3 => 8186usize..8199,
         1 => 65_530usize..65_546,
         1 => 8199usize..max_big.max(8200),
+        // interior values: uniform below the default buffer size, and the neighbourhood of "round" sizes
+        2 => 65usize..8186,
+        2 => (prop::sample::select(vec![100usize, 128, 200, 500, 512, 1000, 2000, 2048, 3000, 4000, 5000, 6000, 7000, 8000]), 0usize..5).prop_map(|(c, d)| c + d - 2),
     ]
 }
 
